@@ -162,12 +162,35 @@ def apply_op(b: PipelineBuilder, op):
             b.default_component(op["name"])
         elif kind == "clear":
             b.clear_inputs(op["name"])
+        elif kind == "set_name":
+            b.name = op["value"]
+        elif kind == "set_version":
+            b.version = op["value"]
+        elif kind == "observe":
+            r["obs"] = checkpoint(b, op["how"])
         else:
             raise RuntimeError("unknown op " + kind)
     except (ValueError, KeyError, TypeError, PipelineError) as e:
         r["err"] = err_code(e)
         r["msg"] = str(e)[:80]
     return r
+
+
+def checkpoint(b: PipelineBuilder, how):
+    """observe the SAME builder in the middle of its history: first the call named by `how` (so that whatever the builder
+    remembers is computed at this point), then its hash, the pipeline it builds and that pipeline's clone"""
+    first = {"hash": lambda: b.config_hash(), "meta": lambda: b.meta().hash, "config": lambda: b.build_config().meta.hash,
+             "build": lambda: b.build().config_hash}[how]
+    v, e, _ = guarded(first)
+    out = {"how": how, "first": v, "first_err": e}
+    v, e, _ = guarded(lambda: b.config_hash())
+    out["config_hash"] = v
+    p, e, _ = guarded(b.build)
+    out["built"] = obs_config(p) if p is not None else {"err": e}
+    if p is not None:
+        q, e, w = guarded(p.clone)
+        out["clone"] = ({**obs_config(q), "warn": w} if q is not None else {"err": e, "warn": w})
+    return out
 
 
 def obs_config(p: Pipeline):
@@ -280,6 +303,25 @@ def observe(case, docs):
         bq, e, w = guarded(lambda: PipelineBuilder.from_config(json.loads(js)))
         out["builder_from_config"] = {"err": e, "warn": w, "hash": (bq.config_hash() if bq is not None else None),
                                       "name": getattr(bq, "name", None), "version": getattr(bq, "version", None)}
+        # a builder loaded from the document (which records a hash), edited once more, then built
+        ed = case.get("fc_edit")
+        if ed is not None and bq is not None:
+            def edit_and_build():
+                if ed["kind"] == "default":
+                    bq.default_component(ed["value"])
+                elif ed["kind"] == "name":
+                    bq.name = ed["value"]
+                elif ed["kind"] == "version":
+                    bq.version = ed["value"]
+                else:
+                    bq.alias(ed["alias"], ed["value"])
+                return bq.build()
+            p2, e, w = guarded(edit_and_build)
+            o2 = obs_config(p2) if p2 is not None else {"err": e}
+            if p2 is not None:
+                q2, e2, w2 = guarded(p2.clone)
+                o2["clone"] = {"err": e2, "warn": w2, "hash": q2.config_hash if q2 is not None else None}
+            out["from_config_edit"] = o2
     out["reloads"] = []
     for label, text in docs:
         q, e, w = guarded(lambda: Pipeline.from_config(json.loads(text)))
